@@ -77,7 +77,7 @@ RULE = ("random histories (4-17 operations through Create/Update/DeleteById/SetL
         "nullable-unique, set, fk (nullable / non-nullable / self-referencing) indexes, fk constraints and a link "
         "collection pair) followed by 0-6 raw bbolt corruptions drawn from every supported class; one case in eight "
         "is run three times (separate transactions, one transaction things-then-owners, one transaction "
-        "owners-then-things); plus the fixed 6-entity state with every single corruption of a 42-entry catalogue and "
+        "owners-then-things); plus a fixed 8-entity state (ids a1/a11 and b1/b11 in a prefix relation sharing every list) with every single corruption of a 46-entry catalogue and "
         "sampled pairs (quick) / every subset of <= 3 corruptions (thorough). non-trivial = at least one corruption "
         "applied and at least one report in the check-only phase; distinct = (mode, sorted set of (class, index) "
         "pairs reported in phase 1, number of reports in phase 3)")
